@@ -129,6 +129,10 @@ void flush_trace() {
   }
 }
 
+inline void count_step() {
+  if (G.script_pos < G.cfg.script_len) G.script_pos++;
+}
+
 void emit(const char* fmt, ...) {
   char buf[1024];
   va_list ap;
@@ -270,11 +274,17 @@ void reschedule(Thr* me) {
   int next = -1;
   bool me_enabled = me->st == RUNNABLE;
   if (scripted) {
-    next = G.cfg.script[G.script_pos++];
-    if (next < 0 || next >= G.nthr || G.thr[next].st != RUNNABLE) {
-      char b[128];
-      snprintf(b, sizeof b, "script step %d wants thread %d which is not enabled", G.script_pos - 1, next);
-      end_now(ST_SCRIPT_MISMATCH, b);
+    // entries name the program thread that performs the next *logged* step; the main thread
+    // (spawn / join only) runs whenever it can; start / exit / clock points consume nothing
+    if (G.thr[0].st == RUNNABLE) next = 0;
+    else {
+      next = G.cfg.script[G.script_pos];
+      if (next >= 0 && next < G.nthr && G.thr[next].st == SLEEPING) fire_timer(next, G.thr[next].deadline); // its sleep is over
+      if (next < 0 || next >= G.nthr || G.thr[next].st != RUNNABLE) {
+        char b[128];
+        snprintf(b, sizeof b, "script step %d wants thread %d which is not enabled", G.script_pos, next);
+        end_now(ST_SCRIPT_MISMATCH, b);
+      }
     }
   } else if (S == "pct") {
     // lower priority at change points
@@ -288,7 +298,7 @@ void reschedule(Thr* me) {
         best = t.prio;
       }
     }
-  } else if (S == "pb") {
+  } else if (S == "pb" || S == "script") {
     // explicit preemptions from the script: pairs (decision_index, thread)
     int didx = (int)G.decisions.size();
     int forced = -1;
@@ -390,6 +400,7 @@ bool inject_spurious() noexcept {
 
 void after(const Op& op, uint64_t result, bool ok) noexcept {
   if (!active()) return;
+  count_step();
   if (!G.cfg.log_atomics) return;
   Thr* me = tls_me;
   std::string loc = op.kind == K_FENCE ? std::string() : loc_json(op.addr);
@@ -491,6 +502,7 @@ void event(const char* body, bool pt) {
     Op op{};
     op.kind = K_USER;
     before(op);
+    count_step();
   }
   emit("{\"t\":%d,%s}", tls_me->id, body);
 }
@@ -522,6 +534,7 @@ int futex_wait(uint32_t* addr, uint32_t val, const struct timespec* to) noexcept
   op.kind = K_FUTEX_WAIT;
   op.addr = addr;
   before(op);
+  count_step();
   uint32_t cur = __atomic_load_n(addr, __ATOMIC_RELAXED);
   std::string loc = loc_json(addr);
   if (cur != val) {
@@ -545,6 +558,7 @@ int futex_wait(uint32_t* addr, uint32_t val, const struct timespec* to) noexcept
   bool timed_out = me->timed_out;
   me->timed_out = false;
   me->waddr = nullptr;
+  count_step();
   emit("{\"k\":\"fret\",\"t\":%d,%s,\"res\":\"%s\"}", me->id, loc.c_str(), timed_out ? "timeout" : "woken");
   if (timed_out) {
     errno = ETIMEDOUT;
@@ -559,6 +573,7 @@ int futex_wake(uint32_t* addr, int n) noexcept {
   op.kind = K_FUTEX_WAKE;
   op.addr = addr;
   before(op);
+  count_step();
   int woken = 0;
   while (woken < n) {
     Thr* best = nullptr;
@@ -580,6 +595,7 @@ void sleep_ns(int64_t ns) noexcept {
   Op op{};
   op.kind = K_SLEEP;
   before(op);
+  count_step();
   emit("{\"k\":\"sleep\",\"t\":%d,\"us\":%lld}", me->id, (long long)(ns / 1000));
   if (ns <= 0) {
     set_yield_prio(me);
@@ -597,6 +613,7 @@ void yield() noexcept {
   op.kind = K_YIELD;
   set_yield_prio(me);
   before(op);
+  count_step();
   emit("{\"k\":\"yield\",\"t\":%d}", me->id);
 }
 
@@ -693,8 +710,9 @@ void register_handle(int id, unsigned long h) noexcept {
 }
 int id_of_handle(unsigned long h) noexcept {
   if (!G.active) return -1;
-  for (int i = 1; i < G.nthr; i++)
-    if (G.thr[i].handle == h) return i;
+  // glibc reuses the pthread_t of a joined thread: the newest live owner of the handle wins
+  for (int i = G.nthr - 1; i >= 1; i--)
+    if (G.thr[i].handle == h && G.thr[i].handle != 0) return i;
   return -1;
 }
 
@@ -708,6 +726,7 @@ void on_join(int id) noexcept {
     me->join_target = id;
     reschedule(me);
   }
+  G.thr[id].handle = 0;
   emit("{\"k\":\"join\",\"t\":%d,\"child\":%d}", me->id, id);
 }
 
